@@ -39,8 +39,8 @@ Qed.
 Print Assumptions C11_relative_include_is_directory_relative.
 
 (* compile_data with any usable old cache item - in particular none - returns the data of the
-   specification, including the class of the exception; [spec_result] is get_data_spec except for the
-   recorded finding (ValueError when files are selected but contribute no piece) *)
+   specification, including the class of the exception; [spec_result] is get_data_spec except under the
+   pre-ec4c1d7 variant (ValueError when files are selected but contribute no piece) *)
 Theorem C11_compile_eq_spec_partial : forall V C H render_o yload matches t pv,
   rerender V = false ->
   (forall text v, yload text = Ok v -> wf v = true) ->
@@ -49,7 +49,7 @@ Theorem C11_compile_eq_spec_partial : forall V C H render_o yload matches t pv,
 Proof. exact compile_spec. Qed.
 Print Assumptions C11_compile_eq_spec_partial.
 
-(* with the unpacking defect repaired the statement is the full one *)
+(* for the code as it is now (unpacking defect repaired) the statement is the full one *)
 Theorem C11_compile_eq_spec : forall V C H render_o yload matches t pv,
   rerender V = false -> empty_raises V = false ->
   (forall text v, yload text = Ok v -> wf v = true) ->
@@ -120,14 +120,15 @@ Theorem C11_holds : forall c, valid c -> holds c (run_model c) = [].
 Proof. exact holds_model. Qed.
 Print Assumptions C11_holds.
 
-(* ---- the recorded finding: files selected, no piece -> ValueError instead of {} ---- *)
+(* ---- before ec4c1d7 (finding D17): files selected, no piece -> ValueError instead of {} ---- *)
+Definition pre_ec4c1d7 : variants := {| tag_after := true; rerender := false; empty_raises := true |}.
 Definition cfg0 : config := {| allow_empty_top := false; cfg_ml := false; cfg_ms := true; engine_on := false; suffix := s_yaml |}.
 Definition T_top : str := [49]%N.
 Definition T_a : str := [50]%N.
 Definition T_b : str := [51]%N.
 Definition vs (s : string) : val := VStr (bytes_of_string s).
 Definition case_empty : case :=
-  {| cV := current_variants; cC := cfg0;
+  {| cV := pre_ec4c1d7; cC := cfg0;
      cO := {| o_render := [];
               o_yload := [(T_top, Ok (VDict [(vs "*", VList [vs "a"])])); (T_a, Ok (VDict []))];
               o_match := [(bytes_of_string "*", Ok true)] |};
@@ -135,8 +136,9 @@ Definition case_empty : case :=
      cPv := [] |}.
 Theorem C11_refuted_empty_pieces :
   run_model case_empty = Err ValueError /\ run_spec (cC case_empty) (cO case_empty) (cT case_empty) = Ok [] /\
-  holds case_empty (run_model case_empty) <> [].
-Proof. split; [vm_compute; reflexivity | split; [vm_compute; reflexivity | vm_compute; discriminate]]. Qed.
+  holds case_empty (run_model case_empty) = ["empty_piece_list_raises"%string] /\
+  holds case_empty (run_model {| cV := current_variants; cC := cC case_empty; cO := cO case_empty; cT := cT case_empty; cPv := [] |}) = [].
+Proof. repeat split; vm_compute; reflexivity. Qed.
 
 (* ---- non-vacuity: a tree with a relative include in the middle of a file reached through init.yaml ---- *)
 Definition case_nv : case :=
